@@ -36,12 +36,17 @@ RULE = (
     "remove_request for that request is called k = 0..8 loop iterations later within the same virtual instant; a "
     "search may be removed while its SearchRequestSentEvent is being delivered: by a plain listener, by an async "
     "listener after 1..6 loop iterations or one grid step of virtual time, or by another task while such a slow "
-    "listener is awaited (deadline = call time + timeout in force, whatever the listeners do); a search may meet "
+    "listener is awaited (creation = the instant the SearchRequestSentEvent is emitted, i.e. when the message has been sent and the timer is armed, whatever the listeners do afterwards); a search may meet "
     "a fault on the server link while its message is sent: the write fails (connection lost, the call raises), "
-    "the write meets back pressure for one grid step (the call returns a grid step later: creation = return time), "
+    "the write meets back pressure for one grid step (the message is sent, the request registered and reported a grid step later), "
     "or the caller gives up after half a grid step of back pressure (asyncio.wait_for): a call that raised or was "
     "cancelled must leave no new entry in SearchManager.requests and a peer reply for the ticket it used up must "
-    "produce no SearchResultEvent; "
+    "produce no SearchResultEvent; the server may close / reset the server connection (session destroyed) and the "
+    "client may later connect_server() + login() again; the same client object may be stopped and started again "
+    "(+ login), staying down for 0..2 grid steps; pinned on the unchanged tree and modelled exactly so: requests, "
+    "their tickets and their timers survive both (deadlines unchanged, removal is reported at the deadline even while "
+    "stopped), peer replies that reach the client are reported whether or not a session exists (replies whose peer "
+    "connection overlaps a stop() are not judged); "
     "scheduled replies optionally travel over a peer connection established beforehand (so that the reply is handled "
     "in the loop iteration in which a timer of the same instant runs); "
     "0..3 generated extra SearchRequestRemovedEvent listeners (plain function, coroutine without a wait, coroutine "
@@ -150,9 +155,16 @@ _settimeout_op = st.fixed_dictionaries({
 _wish_op = st.fixed_dictionaries({'op': st.just('wish'), 'interval': st.sampled_from([1, 1, 2, 3]),
                                   'when': st.sampled_from(['now', 'next'])})
 
+# the server connection is lost (the server closes / resets it) and later re-established with a new login; the same
+# client object is stopped and started again (+ login), optionally staying down for a grid step
+_lose_op = st.fixed_dictionaries({'op': st.just('lose'), 'kind': st.sampled_from(['eof', 'reset'])})
+_relogin_op = st.fixed_dictionaries({'op': st.just('relogin')})
+_restart_op = st.fixed_dictionaries({'op': st.just('restart'), 'gap': st.sampled_from([0, 0, 1, 2])})
+
 _search_ops = st.lists(
     st.one_of(_search_op, _search_op, _search_op, _remove_op, _remove_op, _reply_op, _reply_op, _reply_op,
-              _race_op, _race_op, _adv_op, _adv_op, _advto_op, _advto_op, _step_op, _settimeout_op, _settimeout_op, _wish_op),
+              _race_op, _race_op, _adv_op, _adv_op, _advto_op, _advto_op, _step_op, _settimeout_op, _settimeout_op, _wish_op,
+              _lose_op, _relogin_op, _restart_op),
     min_size=0, max_size=19).flatmap(lambda ops: _search_op.map(lambda first: [first] + ops))
 
 search_strategy = st.fixed_dictionaries({
@@ -296,6 +308,12 @@ def _sanitise_search(case):
                         'how': o.get('how') if o.get('how') in ('inplace', 'send', 'searches') else 'inplace',
                         'wl': None if o.get('wl') is None else _int(o.get('wl'), -1, 3, -1),
                         'store': o.get('store') if isinstance(o.get('store'), bool) else None})
+        elif name == 'lose':
+            ops.append({'op': 'lose', 'kind': 'reset' if o.get('kind') == 'reset' else 'eof'})
+        elif name == 'relogin':
+            ops.append({'op': 'relogin'})
+        elif name == 'restart':
+            ops.append({'op': 'restart', 'gap': _int(o.get('gap'), 0, 2, 0)})
         elif name == 'wish' and not wished:
             wished = True
             ops.append({'op': 'wish', 'interval': _int(o.get('interval'), 1, 3, 1),
@@ -363,6 +381,7 @@ def _run_search(case) -> CaseResult:
         return res
     from aioslsk.commands import GlobalSearchCommand, RoomSearchCommand, UserSearchCommand
     from aioslsk.events import SearchRequestRemovedEvent, SearchRequestSentEvent, SearchResultEvent
+    from aioslsk.network.connection import ConnectionState
     from aioslsk.protocol import messages as M
     from aioslsk.search.model import SearchType
     from aioslsk.settings import SearchSendSettings, WishlistSettingEntry
@@ -380,6 +399,8 @@ def _run_search(case) -> CaseResult:
     checkpoints = []     # (time, {ticket: id(obj)})
     notes = {'dup': None, 'ties': set(), 'near': False}
     violations = []      # (kind, detail, ticket, time) found while driving
+    conn_at = {}         # reply id -> instant at which its peer connection was made (None: client not listening)
+    stops = []           # [stop instant, instant at which start() + login() had finished]
     wl_changes = []      # instants at which the wishlist timeout was changed
     store_changes = []   # (instant, new value) of searches.send.store_results
     uncertain = {}       # ticket -> creation instant of wishlist requests whose timeout is ambiguous
@@ -416,6 +437,7 @@ def _run_search(case) -> CaseResult:
                 req = event.query
                 if req.search_type != SearchType.WISHLIST and hook['op'] is not None:
                     hook['req'] = req
+                    hook['sent_at'] = now
                 if req.search_type == SearchType.WISHLIST and id(req) not in by_obj:
                     if state['wl_timeout'] >= 0:
                         timeout = state['wl_timeout'] or None
@@ -450,7 +472,13 @@ def _run_search(case) -> CaseResult:
             async def on_result(self, event):
                 events.append((loop.time(), 'result', event, next_seq()))
 
-        hook = {'op': None, 'T': None, 'req': None, 'removed': None}
+        hook = {'op': None, 'T': None, 'req': None, 'removed': None, 'sent_at': None}
+
+        def server_down():
+            conn = client.network.server_connection
+            writer = getattr(conn, '_writer', None)
+            return (writer is None or writer.transport.dead or writer.transport.is_closing()
+                    or not client.session or conn.state != ConnectionState.CONNECTED)
 
         def hook_remove(req):
             """remove_request from inside / during the delivery of SearchRequestSentEvent (errors are recorded here:
@@ -561,8 +589,18 @@ def _run_search(case) -> CaseResult:
                 'bob', ticket, results=[], has_slots_free=True, avg_speed=rid, queue_size=rid % 7,
                 locked_results=[])
 
+        def peer_connect(rid):
+            """bob connects to the client's listening port (None while the client is stopped)."""
+            if not world.net.can_connect_in(world.client_port(False)):
+                conn_at[rid] = None
+                return None
+            conn_at[rid] = loop.time()
+            return bob.connect('P')
+
         def deliver(ticket, rid, holder=None):
-            link = bob.connect('P')
+            link = peer_connect(rid)
+            if link is None:
+                return
             link.send_msg(reply_msg(ticket, rid))
             if holder is not None:
                 holder.append(link)
@@ -571,7 +609,9 @@ def _run_search(case) -> CaseResult:
             """The reply bytes reach the client exactly at ``arrival``; with ``pre`` the peer connection is
             established now and only the reply travels later (fewer loop iterations between arrival and handling)."""
             if pre:
-                link = bob.connect('P')
+                link = peer_connect(rid)
+                if link is None:
+                    return
                 loop.call_at(arrival - LAT, link.send_msg, reply_msg(ticket, rid))
                 if holder is not None:
                     holder.append(link)
@@ -612,7 +652,7 @@ def _run_search(case) -> CaseResult:
                 before = {id(o) for o in manager.requests.values()}
                 query = 'q%d' % op['q']
                 timeout = state['timeout'] or None
-                hook.update(op=op if op['hook'] else None, T=T, req=None, removed=None)
+                hook.update(op=op if op['hook'] else None, T=T, req=None, removed=None, sent_at=None)
                 hook['op'] = hook['op'] or {'hook': None}     # always capture the request of the sent event
                 remover = asyncio.ensure_future(concurrent_remover(op)) if op['hook'] == 'task' else None
 
@@ -636,7 +676,7 @@ def _run_search(case) -> CaseResult:
                 fault = op['fault'] if not op['hook'] else None
                 writer = getattr(client.network.server_connection, '_writer', None)
                 tr = writer.transport if writer is not None else None
-                link_down = tr is None or tr.dead or tr.is_closing() or not client.session
+                link_down = server_down()
                 if link_down:
                     fault = None    # (lost by an earlier write failure: a search may now raise, as documented)
                 if fault == 'fail':
@@ -665,21 +705,24 @@ def _run_search(case) -> CaseResult:
                 except Exception as exc:
                     if fault == 'cancel' and isinstance(exc, TimeoutError):
                         failed = 'cancelled'
-                    elif fault == 'fail' or link_down:
-                        failed = 'raised'
+                    elif fault == 'fail' or link_down or server_down():
+                        failed = 'raised'   # (the server link went down before / while the message was sent)
                     else:
                         violations.append((f'C18/unexpected-exception:{type(exc).__name__}@search:{op["via"]}',
                                            f'{op} raised {exc!r}', None, T))
                         failed = 'raised'
                     obj = None
+                returned_at = loop.time()
                 if tr is not None:
                     tr.drain_delay = 0.0
                 if remover is not None:
                     await remover
                 removed, hook['op'] = hook['removed'], None
-                slept = bool(op['hook'] in ('async', 'task') and op['slow'] == 'tick' and hook['req'] is not None)
-                if slept or (fault in ('slow', 'cancel') and loop.time() > T + EPS):
-                    state['tick'] += 1      # the slow listener / the slow write held the call for one grid step
+                # a slow listener / a slow write (also one left over by another writer of the same link) held the call:
+                # back onto the grid
+                ticks = math.ceil((loop.time() - T0 - EPS) / TICK)
+                if ticks > state['tick']:
+                    state['tick'] = ticks
                     await _until(loop, now_t())
                 if failed is not None:
                     notes['failed:' + failed] = True
@@ -698,11 +741,11 @@ def _run_search(case) -> CaseResult:
                                     'cls': 'failed-call', 'dup': False})
                 if obj is None:
                     continue
-                if abs(loop.time() - now_t()) > EPS:
-                    violations.append(('C18/search-call-took-virtual-time', f'{op}: {loop.time() - T}', None, T))
                 if obj.query != query:
                     violations.append(('C18/request-carries-wrong-query', f'{op}: {obj.query!r}', None, T))
-                created = T if op['hook'] else now_t()     # a slow write delays the registration (and the timer)
+                # the request is registered (and its timer armed) when the message has been sent: the instant of its
+                # SearchRequestSentEvent; a slow write delays that
+                created = hook['sent_at'] if hook['sent_at'] is not None else returned_at
                 r = add_req(op['via'], obj, created, timeout, created, before)
                 if removed is not None:
                     r.removed_at, r.removed_seq = removed
@@ -788,6 +831,36 @@ def _run_search(case) -> CaseResult:
                     store_changes.append((T, op['store']))
                 apply_settings(op['how'])
                 notes['settings:' + op['how']] = True
+            elif name == 'lose':
+                if client.session:
+                    world.server.close_session(kind=op['kind'])
+                    notes['lose'] = True
+            elif name == 'relogin':
+                conn = client.network.server_connection
+                if client.session is None and conn.state == ConnectionState.CLOSED:
+                    try:
+                        await client.network.connect_server()
+                        await client.login()
+                    except Exception as exc:
+                        violations.append((f'C18/unexpected-exception:{type(exc).__name__}@relogin', repr(exc),
+                                           None, T))
+                    state['tick'] += 1          # connect + login take a few milliseconds: back onto the grid
+                    await _until(loop, now_t())
+                    notes['relogin'] = True
+            elif name == 'restart':
+                stops.append([T, None])
+                try:
+                    await client.stop()
+                    if op['gap']:
+                        await advance(op['gap'])
+                    await client.start()
+                    await client.login()
+                except Exception as exc:
+                    violations.append((f'C18/unexpected-exception:{type(exc).__name__}@restart', repr(exc), None, T))
+                stops[-1][1] = loop.time()
+                state['tick'] += 1
+                await _until(loop, now_t())
+                notes['restart'] = True
             elif name == 'wish':
                 msg = M.WishlistInterval.Response(op['interval'])
                 if op['when'] == 'now':
@@ -956,6 +1029,10 @@ def _run_search(case) -> CaseResult:
         cands = [r for r in reqs if r.ticket == rp['ticket']]
         if rp['ticket'] in tainted and A >= tainted[rp['ticket']] - EPS:
             continue
+        made = conn_at.get(rp['id'])
+        if made is None or any(not (A < down - EPS or (up is not None and made > up + EPS)) for down, up in stops):
+            unsure_stored.update(r.n for r in cands)
+            continue    # the peer could not connect / the connection was cut by a stop() of the client
         live = [r for r in cands if r.status(A, True) == 'live']
         tie = [r for r in cands if r.status(A, True) == 'tie']
         evs = result_events.get(rp['id'], [])
@@ -1073,6 +1150,9 @@ def _run_search(case) -> CaseResult:
     for how in ('inplace', 'send', 'searches'):
         if notes.get('settings:' + how):
             res.label('settings-changed:' + how)
+    for k in ('lose', 'relogin', 'restart'):
+        if notes.get(k):
+            res.label('session:' + k)
     if notes.get('hook'):
         res.label('remove-during-sent-event')
     for k in ('failed:raised', 'failed:cancelled'):
